@@ -253,3 +253,50 @@ Fixpoint hist_spec_ok (st : pwstate) (steps : list hstep) (probes : list hprobe)
       && hist_spec_ok (fst (step_spec st o c)) r probes
   | [] => forallb (fun p : hprobe => let '(t, m, c, ob) := p in spec_ok 0 t m (cred_level grant_spec st c) true ob) probes
   end.
+
+(* ---- which optional feature each route belongs to --------------------------------------------------------------------
+   Hand-written from the API specification / the device "flags" attribute: a route exists exactly when ALL the listed
+   conditions hold; otherwise it is an unknown route (404 for every method and caller).  Conditions are atomic facts
+   about the configuration and the environment, named by their source text:
+     settings.a.b                          the setting is truthy
+     persist.is_samples_supported()        the persistence driver can store samples
+     is_discover_enabled()                 an AP interface for slave discovery is available
+     system.conf.can_write_conf_file()     the configuration file exists and is writable
+   History needs BOTH the setting and a samples-capable driver (the device lists the "history" flag only then). *)
+Definition route_condition_spec (r : route) : list string :=
+  match r with
+  | RFrontendPanels | RFrontendPrefs | RFrontendConfig => ["settings.frontend.enabled"]
+  | RPortSequence => ["settings.core.sequences_support"]
+  | RPortHistory => ["settings.core.history_support"; "persist.is_samples_supported()"]
+  | RBackupEndpoints => ["settings.core.backup_support"]
+  | RFirmware => ["settings.system.fwupdate.driver"]
+  | RSlaveDevices | RSlaveDevice | RSlaveDeviceEvents | RSlaveDeviceForward => ["settings.slaves.enabled"]
+  | RDiscovered | RDiscoveredDevice => ["settings.slaves.enabled"; "is_discover_enabled()"]
+  | RWebhooks => ["settings.webhooks.enabled"]
+  | RListen => ["settings.core.listen_support"]
+  | RReverse => ["settings.reverse.enabled"]
+  | RSystem => ["system.conf.can_write_conf_file()"]
+  | RIntrospect => ["settings.debug"]
+  | RDevice | RReset | RAccess | RPorts | RPort | RPortValue | RPeripherals | RPeripheral => []
+  end.
+
+(* adding and removing ports needs virtual ports support *)
+Definition method_condition_spec (r : route) (m : meth) : list string :=
+  match r, m with
+  | RPorts, POST | RPort, DELETE => ["settings.core.virtual_ports"]
+  | _, _ => []
+  end.
+
+Definition str_in (s : string) (l : list string) : bool := existsb (String.eqb s) l.
+
+(* on = the atomic facts that hold *)
+Definition route_enabled_spec (on : list string) (r : route) (m : meth) : bool :=
+  forallb (fun c => str_in c on) (route_condition_spec r) && forallb (fun c => str_in c on) (method_condition_spec r m).
+
+(* the oracle with the configuration: a request for a route whose feature is off must be answered 404 *)
+Definition spec_ok_on (on : list string) (cls : Z) (tmpl : string) (m : meth) (l : Z) (json : bool) (o : obs) : bool :=
+  match cls, route_of_template tmpl with
+  | 0, Some r => if route_enabled_spec on r m then spec_ok cls tmpl m l json o
+                 else match o with OStatus 404 => true | _ => false end
+  | _, _ => spec_ok cls tmpl m l json o
+  end.
